@@ -853,3 +853,22 @@ def model_stats(M):
     return {"templates": len(M["templates"]), "locations": sum(len(t["locs"]) for t in M["templates"]),
             "branchpoints": sum(len(t["bps"]) for t in M["templates"]), "edges": ne,
             "insts": len(M["insts"]), "procs": len(M["procs"])}
+
+
+# ------------------------------------------------------------------------------------------------ tie T
+def regen_tables(ctx):
+    """translate/xml_tables.py: tables of xmlreader.cpp / DocumentBuilder.cpp / document.cpp / parser.y / xmlwriter.cpp of the
+    current tree -> lean/UtapModel/Gen/XmlTables.lean (every run).  Returns False (after reporting) if the source has a
+    shape the translator does not recognise."""
+    import os, sys
+    from vlib import core
+    sys.path.insert(0, os.path.join(core.VERIF, "translate"))
+    import xml_tables
+    try:
+        text = xml_tables.translate(core.REPO)
+    except xml_tables.TranslateError as ex:
+        ctx.proof_broken("translate/xml_tables.py", str(ex), "the tables could not be regenerated from the current source")
+        return False
+    changed = core.write_if_changed(os.path.join(core.LEAN_DIR, "UtapModel", "Gen", "XmlTables.lean"), text)
+    ctx.coverage["tables_regenerated"] = {"changed_since_last_run": bool(changed), "bytes": len(text)}
+    return True
